@@ -35,6 +35,33 @@ struct Case {
     message: Option<String>,
     error: Option<String>,
     expect: Vec<Value>,
+    /// the request may be refused locally (a verbatim fragment that cannot be framed)
+    may_reject: bool,
+}
+
+/// A caller-supplied payload whose serialiser gives up after `after` elements (what it wrote before
+/// must not leak into any later message).
+#[derive(Debug, Clone)]
+struct Unreliable {
+    after: usize,
+}
+
+impl netconf::message::WriteXml for Unreliable {
+    fn write_xml<W: std::io::Write>(&self, writer: &mut quick_xml::Writer<W>) -> Result<(), netconf::message::WriteError> {
+        if self.after == 0 {
+            return Err(netconf::message::WriteError::Other("backing store went away".into()));
+        }
+        let n = self.after;
+        writer
+            .create_element("configuration")
+            .write_inner_content(|w| {
+                for i in 0..n {
+                    _ = w.create_element("system").write_text_content(quick_xml::events::BytesText::new(&format!("leftover-{i} ]]>]]>")))?;
+                }
+                Err::<(), netconf::message::WriteError>(netconf::message::WriteError::Other("backing store went away".into()))
+            })
+            .map(|_| ())
+    }
 }
 
 fn all_caps() -> Caps {
@@ -71,7 +98,7 @@ fn build_cases(thorough: bool) -> Vec<Case> {
     let hello = all_caps().hello();
     let alpha = text_alphabet();
     let mut push = |op: &'static str, param: &'static str, value: &str, r: (Option<String>, Option<String>), expect: Vec<Value>| {
-        out.push(Case { op, param, value: value.to_string(), message: r.0, error: r.1, expect });
+        out.push(Case { op, param, value: value.to_string(), message: r.0, error: r.1, expect, may_reject: param.starts_with("unframeable:") });
     };
     for v in &alpha {
         let v = *v;
@@ -139,6 +166,39 @@ fn build_cases(thorough: bool) -> Vec<Case> {
         push("validate", "config", f, r, vec![fragment(f)]);
         let r = send!(env, LoadConfiguration<_>, |b| b.source(Config::new(Opaque::from(f), Xml, Merge)).finish());
         push("load-configuration", "configuration-xml", f, r, vec![fragment(f), attr("rpc/load-configuration", "format", "xml")]);
+    }
+    // well-formed fragments that contain the delimiter (attribute value, comment, CDATA): embedding them verbatim
+    // would put the delimiter inside the message; the request must be refused locally or sent in a form that keeps
+    // the message a single document with one trailing delimiter
+    for f in ["<configuration x=\"]]>]]>\"/>", "<configuration><!-- ]]>]]> --></configuration>", "<configuration><?pi ]]>]]>?></configuration>"] {
+        let mut env = establish(&hello).expect("establish");
+        let r = send!(env, Get, |b| b.filter(Some(Filter::Subtree(f.to_string()))).finish());
+        push("get", "unframeable:filter-subtree", f, r, vec![]);
+        let r = send!(env, EditConfig<Opaque>, |b| b.target(Datastore::Running)?.config(Opaque::from(f)).finish());
+        push("edit-config", "unframeable:config", f, r, vec![]);
+        let r = send!(env, LoadConfiguration<_>, |b| b.source(Config::new(Opaque::from(f), Xml, Merge)).finish());
+        push("load-configuration", "unframeable:configuration-xml", f, r, vec![]);
+        // the session must still be usable
+        let r = send!(env, CommitConfiguration, |b| b.with_log_message("after a refused request").finish());
+        push("commit-configuration", "log", "after a refused request", r, vec![text("rpc/commit-configuration/log", "after a refused request")]);
+    }
+    // histories: a request whose serialisation fails half way (caller-supplied payload), then ordinary requests
+    // on the same session and thread: nothing of the failed message may show up in a later one
+    for after in [0usize, 1, 3] {
+        let mut env = establish(&hello).expect("establish");
+        let before = env.wire.sent_count();
+        let failed = drive(env.session.rpc::<EditConfig<Unreliable>, _>(|b| b.target(Datastore::Candidate)?.config(Unreliable { after }).finish()), 10_000);
+        let leaked = env.wire.sent_count() != before;
+        let value = format!("fails after {after} elements");
+        push("edit-config", "history:failing-payload", &value, (None, (leaked || !matches!(failed, Some(Err(_)))).then(|| format!("a request whose payload failed to serialise was sent or did not fail: sent={leaked}"))), vec![]);
+        let failed = drive(env.session.rpc::<LoadConfiguration<_>, _>(|b| b.source(Config::new(Unreliable { after }, Xml, Merge)).finish()), 10_000);
+        _ = failed;
+        let r = send!(env, CommitConfiguration, |b| b.with_log_message("after a failed one").finish());
+        push("commit-configuration", "history:log-after-failed-serialisation", "after a failed one", r, vec![text("rpc/commit-configuration/log", "after a failed one")]);
+        let r = send!(env, GetConfig<Opaque>, |b| b.source(Datastore::Running)?.finish());
+        push("get-config", "history:after-failed-serialisation", "", r, vec![]);
+        let r = send!(env, EditConfig<Opaque>, |b| b.target(Datastore::Candidate)?.config(Opaque::from("<configuration><system/></configuration>")).finish());
+        push("edit-config", "history:config-after-failed-serialisation", "<configuration><system/></configuration>", r, vec![fragment("<configuration><system/></configuration>")]);
     }
     // agent payloads: policy names and filter expressions, through the agent's real renderer
     let names = ["fltr-foo", "a&b", "a<b", "q\"uote'", "]]>]]>", "caf\u{e9}-\u{1f600}", " lead trail ", "x]]>y", "&amp;"];
@@ -222,6 +282,9 @@ pub fn run(report: &mut Report) {
     // requests that failed locally although the value is legal
     for c in &cases {
         if let Some(err) = &c.error {
+            if c.may_reject && c.message.is_none() {
+                continue;
+            }
             report.violation(&format!("C10:{}:{}:request-rejected", c.op, c.param), &format!("{} / {} = {:?} could not be built or sent: {err}", c.op, c.param, c.value), json!({"operation": c.op, "parameter": c.param, "value": c.value}));
         }
         for e in c.expect.iter().filter(|e| e["kind"] == "attr-contains") {
@@ -245,5 +308,5 @@ pub fn run(report: &mut Report) {
     report.set("distinct_nontrivial", distinct.len() as u64);
     report.set("exhaustive", true);
     report.set("rule", "every text-valued parameter of every operation x an adversarial value alphabet (XML metacharacters, quotes, the delimiter, CDATA/comment markers, entities, blanks, control whitespace, non-ASCII, astral), pairs of parameters, URI-valued parameters, verbatim fragments, and the agent's policy payloads (names x expressions, update and delete); each message is judged by python expat: one document, one trailing delimiter, values recovered unchanged; distinct = distinct serialised messages");
-    report.assume("characters XML 1.0 cannot represent (U+0000-U+0008 etc.) are outside the alphabet; a fragment that itself contains the delimiter is outside the claim");
+    report.assume("characters XML 1.0 cannot represent (U+0000-U+0008 etc.) are outside the alphabet; a well-formed fragment that itself contains the delimiter may be refused locally");
 }
